@@ -416,3 +416,33 @@ pub fn empty_span_info() -> SpanInfo {
     let mut xot = Xot::new();
     xot.parse_fragment_with_span_info("").map(|(_, s)| s).expect("empty fragment parses")
 }
+
+pub fn json_escape(s: &str) -> String {
+    let mut o = String::new();
+    for c in s.chars() {
+        match c {
+            '"' => o.push_str("\\\""),
+            '\\' => o.push_str("\\\\"),
+            '\n' => o.push_str("\\n"),
+            '\r' => o.push_str("\\r"),
+            '\t' => o.push_str("\\t"),
+            c if (c as u32) < 0x20 => o.push_str(&format!("\\u{:04x}", c as u32)),
+            c => o.push(c),
+        }
+    }
+    o
+}
+
+pub fn f_line(prop: &str, sig: &str, what: &str, entry: &str, input: &str) -> String {
+    let shown: String = input.chars().take(200).collect();
+    format!(
+        "F\t{}\t{{\"signature\": \"{}:{}\", \"what\": \"{}\", \"replay\": {{\"suite\": \"build\", \"entry\": \"{}\", \"input\": \"{}\", \"text\": \"{}\"}}}}",
+        prop,
+        prop,
+        json_escape(sig),
+        json_escape(what),
+        entry,
+        enc(input),
+        json_escape(&shown)
+    )
+}
